@@ -51,6 +51,7 @@ func TestVerifConcStress(t *testing.T) {
 		t.Skip()
 	}
 	quiet()
+	baseLogging() // VERIF_LOG=debug: the same stress with goom's debug interceptor around every replacement (C19)
 	rounds, iters, ncall := envIntOr("VERIF_ROUNDS", 50), envIntOr("VERIF_ITERS", 3), envIntOr("VERIF_CALLERS", 3)
 	rng := rand.New(rand.NewSource(int64(envIntOr("VERIF_SEED", 1))))
 	of, _ := os.Create(out)
@@ -147,13 +148,14 @@ func TestVerifConcStress(t *testing.T) {
 		var cwg sync.WaitGroup
 		for c := 0; c < ncall; c++ {
 			cwg.Add(1)
-			go func() {
+			go func(c int) {
 				defer cwg.Done()
 				me := goid()
 				s := &fn.S{Tag: 1}
+				arg := 5 + c // every caller passes its own argument and must get its own result back
 				for atomic.LoadInt32(&stop) == 0 {
-					got := s.H(5)
-					if got == 9005 {
+					got := s.H(arg)
+					if got == 9000+arg {
 						// 3000 + (3000 + original): the origin placeholder re-entered the mock (known finding F5, C03)
 						e := concEv{Seq: atomic.AddInt64(&seq, 1), G: me, Ev: "call-f5", Ok: true}
 						mu.Lock()
@@ -161,7 +163,7 @@ func TestVerifConcStress(t *testing.T) {
 						mu.Unlock()
 						continue
 					}
-					if got != 6005 {
+					if got != 6000+arg {
 						e := concEv{Seq: atomic.AddInt64(&seq, 1), G: me, Ev: "call", Ok: false, Got: got}
 						mu.Lock()
 						evs = append(evs, e)
@@ -174,8 +176,27 @@ func TestVerifConcStress(t *testing.T) {
 				mu.Lock()
 				evs = append(evs, e)
 				mu.Unlock()
-			}()
+			}(c)
 		}
+		// one more builder keeps issuing an instruction that goom REJECTS inside the patch step (Origin on a target whose
+		// entry cannot be relocated): the rejection path must respect the same locks as the successful one
+		wg.Add(1)
+		go func() {
+			defer wg.Done()
+			rb := mocker.Create()
+			for it := 0; it < iters; it++ {
+				catch(func() {
+					rb.Func(fn.Loop).Origin(&fn.OLoop).Apply(func(a int) int { return 3000 + fn.OLoop(a) })
+				})
+				runtime.Gosched()
+			}
+			if fn.Loop(5) != 5 {
+				e := concEv{Seq: atomic.AddInt64(&seq, 1), G: goid(), Ev: "call", Ok: false, Got: fn.Loop(5)}
+				mu.Lock()
+				evs = append(evs, e)
+				mu.Unlock()
+			}
+		}()
 		wg.Wait()
 		atomic.StoreInt32(&stop, 1)
 		cwg.Wait()
